@@ -33,6 +33,9 @@ CHECKS = {
  "C06": ("runtime monitor: registry .201/.202 Encode->Decode frame-equality oracle over executed frames and block/level parameters, plus complete execution of the finite set of third-party lossless fixtures against their raw sources",
          "Held on every executed frame; the 14 third-party OpenJPH/fo-dicom lossless codestreams are decoded and compared with their input.raw on every run (finite set, exhaustive).",
          "Self round trip; fixtures and manifest under /repo/test-data/htj2k/interop are trusted as labelled.", "3/C06"),
+ "C10": ("runtime monitor over recorded call histories: the harness PixelData logs every GetFrame/AddFrame; per-call model = a fresh solo call (registry codecs) or a fresh object (jpeg2000.Encoder/Decoder); canary-capacity buffers detect writes into caller memory",
+         "Held on every executed history: for all 14 registered syntaxes frame sequences of length 1..8 (random, permutation, sub-sequence, repeat, alternate) with 1:1/ordered/independent/deterministic/unmodified-input/length/lossless oracles, plus jpeg2000.Encoder histories over 11 parameter kinds and jpeg2000.Decoder histories over 9 stream kinds (with/without colour transform, custom MCT markers, MCT bindings, ROI COM marker). One known finding (BitsAllocated=16 with BitsStored<=8).",
+         "The model of frame independence is the same library run on one frame by a fresh call/object; a defect that makes every call wrong in the same way is C01-C07's business.", "3/C10"),
 }
 
 NOT_YET = {
